@@ -74,7 +74,7 @@ def run(ctx):
     ctx.assumptions += ["byte/row/column quantities < 2^32", "theorems assume Summarized/shapeOK of C02 (checked on every real tree by ./check C02)"]
     ctx.extra_lean_dirs = ["C02"]
     ctx.regen()
-    ctx.prove(["TsVerif.C06.Props", "TsVerif.C06.CursorProps", "TsVerif.C06.NodeProps", "TsVerif.C06.SiblingZw", "TsVerif.C06.NavVariants", "TsVerif.C06.FlatProps", "TsVerif.C06.FieldProps", "TsVerif.C06.SiblingNamed", "TsVerif.C06.SiblingNamedNext", "TsVerif.C06.NamedFcb", "TsVerif.C06.CursorFcb", "TsVerif.C06.FieldWitness", "TsVerif.C06.CursorParent", "TsVerif.C06.CursorFcbFlat", "TsVerif.C06.FieldNamed", "TsVerif.C06.RangeFlat", "TsVerif.C06.RangeFlatP", "TsVerif.C06.EmptyRange"], "TsVerif/C06/Audit.lean")
+    ctx.prove(["TsVerif.C06.Props", "TsVerif.C06.CursorProps", "TsVerif.C06.NodeProps", "TsVerif.C06.SiblingZw", "TsVerif.C06.NavVariants", "TsVerif.C06.FlatProps", "TsVerif.C06.FieldProps", "TsVerif.C06.SiblingNamed", "TsVerif.C06.SiblingNamedNext", "TsVerif.C06.NamedFcb", "TsVerif.C06.CursorFcb", "TsVerif.C06.FieldWitness", "TsVerif.C06.CursorParent", "TsVerif.C06.CursorFcbFlat", "TsVerif.C06.FieldNamed", "TsVerif.C06.RangeFlat", "TsVerif.C06.RangeFlatP", "TsVerif.C06.EmptyRange", "TsVerif.C06.Round11"], "TsVerif/C06/Audit.lean")
     driver = ctx.build_driver("tsv-c06")
     explorer = ctx.cargo_bin("c06")
     langdump = ctx.cunit("cunit_c02")
